@@ -1,0 +1,28 @@
+//! Socket-core level pure pieces.
+
+use std::time::Duration;
+
+use crate::socket::core::state::ReconnectState;
+use crate::socket::types::SocketType;
+
+pub struct ReconnectH(ReconnectState);
+
+impl ReconnectH {
+  pub fn new() -> Self {
+    Self(ReconnectState::default())
+  }
+  pub fn on_failure(&mut self, base: Duration, max: Duration) -> Duration {
+    self.0.on_connection_failure(base, max)
+  }
+  pub fn on_success(&mut self) {
+    self.0.on_connection_success()
+  }
+  pub fn attempts(&self) -> u32 {
+    self.0.current_attempts
+  }
+}
+
+#[cfg(feature = "inproc")]
+pub fn inproc_compatible(connector: SocketType, binder: SocketType) -> bool {
+  crate::transport::inproc::handshake::validate_socket_compatibility(connector, binder).is_ok()
+}
